@@ -62,9 +62,10 @@ CHECKS = {
          "24 of the 26 modules named by the property have a rule specification written from the published rules (sudoku, slitherlink, masyu, yajilin, nurikabe, heyawake, akari, norinori, star_battle, fillomino, nurimisaki, yinyang, creek, gokigen, aquarium, building, doppelblock, putteria, geradeweg, compass, lits, castle_wall, view, fivecells). Per instance z3 decides over ALL candidate answer grids and all auxiliaries that the posted program admits exactly the rule-obeying grids, and that the returned is_sat / decided / undecided cells are exactly what the rules force. Instances (board shape + clue layout) are enumerated, not symbolic: that is the bound. simpleloop (generator device) and shakashaka are not covered.",
          "rule specifications (vlib/checks/c11_specs.py) with reading notes; reference translator; spec library; z3", "2/C11"),
 }
-NA = {
- "C18": "SegmentationBuilder2D is BFS/DFS over sets/dicts/deques driven by random: CrossHair did not complete a single path of a one-step harness on a 2x2 board in 10 CPU-minutes (measured, DESIGN 2/C18); a hand SMT model would not be the real code.",
-}
+CHECKS["C18"] = ("other", "B", "CrossHair symbolic execution of one inductive step of the real builder: bound parameters as unconstrained symbolic integers, random draws symbolic, every connected partition of a small board as pre-state (selected by a symbolic index)",
+         "One update from EVERY valid pre-state on boards up to 2x3 (so update sequences of any length on those boards): candidates / copy_with_update / initial are executed by CrossHair with min/max block count and size as arbitrary integers and split_block's seed draws symbolic; the postcondition (board covered exactly once by non-empty orthogonally connected blocks, counts and sizes inside the effective bounds, nothing the update was computed from is modified) is confirmed over all paths. split_block is also decided as a unit on every connected block inside 2x3 (3x3, 2x4 thorough) for every ordered seed pair. The pre-state dimension is exhaustive enumeration by independent harness code, not symbolic (a fully symbolic partition did not complete a path in 10 CPU-minutes, DESIGN 2/C18); joint count-and-size bounds are symbolic together only on 1x3 / 2x2 boards, pairwise elsewhere.",
+         "CrossHair exhaustiveness; concrete sub-calls (split_block, _is_connected on plain cell lists) run outside the tracer; srandom stubs respect the randint/choice contracts; bounds part claimed for allow_unmet_constraints_first=False", "2/C18 and 7.3")
+NA = {}
 PENDING = {}
 def main():
     props = [json.loads(l)["id"] for l in open(os.path.join(V, "properties.jsonl"))]
